@@ -819,7 +819,11 @@ class Gen(object):
         k, _ = self.pick(self.is_real, prefer=lambda o: o.n_word <= 24)
         if k is None:
             return self.g_new()
-        return {'op': 'npfunc', 'slot': k, 'f': self.rng.choice(['negative', 'absolute', 'square', 'floor', 'sign'])}
+        f = self.rng.choice(['negative', 'absolute', 'square', 'floor', 'sign', 'mean', 'std', 'var'])
+        op = {'op': 'npfunc', 'slot': k, 'f': f}
+        if f in ('mean', 'std', 'var') and self.rng.random() < 0.6:
+            op['route'] = 'method'
+        return op
 
     def g_shallow(self, fs=('copy', 'T', 'flatten', 'fxp_like', 'reshape')):
         k, _ = self.pick()
@@ -967,6 +971,15 @@ class Gen(object):
         sh = tuple(np.asarray(o.val).shape)
         ssh = tuple(np.asarray(so.val).shape)
         op = {'op': 'setitem_from', 'slot': k, 'src': self.cands().index(isrc)}
+        if 'F2' in self.p.faults and r.random() < max(self.p.fault_rate, 0.1):
+            # a write that must be rejected after its input was looked at: index out of range, or a
+            # source that cannot be broadcast into the region
+            if len(ssh) == 1 and ssh[0] >= 2 and sh[0] >= 2 and r.random() < 0.5:
+                n = r.choice([x for x in range(2, sh[0] + 1) if x != ssh[0]] or [sh[0] + 1])
+                op['index'] = ['sl', 0, n, None] if n <= sh[0] else sh[0] + 1
+            else:
+                op['index'] = sh[0] + r.randint(0, 2)
+            return op
         if len(sh) == 2 and len(ssh) == 1 and ssh[0] == sh[0] and r.random() < 0.5:
             op['index'] = [['sl', None, None, None], r.randrange(sh[1])]     # a column: dst[:, j] = src
             return op
@@ -1215,6 +1228,7 @@ class Gen(object):
                 add(4, self.g_cb_arm)
                 add(4, self.g_provoke)
             add(3, self.g_chain2)
+            add(1, self.g_pow, 'derive_arith')
             add(1, self.g_probe_shift, 'derive_bits')
             if prop == 'C20':
                 add(2, lambda: self.g_shallow(('flatten', 'fxp_like')), 'derive_copy')
@@ -1233,6 +1247,7 @@ class Gen(object):
             add(2, self.g_set_from)
             add(2, self.g_from_bin, 'strings')
             add(4, self.g_setitem, 'mutate_index')
+            add(2, self.g_setitem_from, 'mutate_index')
             add(5, self.g_resize)
             add(4, self.g_reset)
             add(3, lambda: self.g_config_set(['overflow', 'rounding']))
@@ -1395,6 +1410,18 @@ class Gen(object):
         a, b = self.rng.choice(fns), self.rng.choice(fns)
         op = a()
         self.on_last(b)
+        return op
+
+    def g_pow(self):
+        """x ** k with a small non-negative integer exponent (operator, function and NumPy routes)."""
+        r = self.rng
+        k, i = self.pick(lambda o: self.is_real(o) and o.n_word <= 16)
+        if k is None:
+            return self.g_new(fmt=[r.random() < 0.6, r.randint(2, 12), r.randint(0, 6)])
+        op = {'op': 'arith', 'f': 'pow', 'a': self.cands().index(i), 'b': {'val': ['i', r.randint(0, 3)]},
+              'route': r.choice(['op', 'op', 'fn', 'np'])}
+        if op['route'] == 'fn' and r.random() < 0.5:
+            op['sizing'] = r.choice(SIZINGS)
         return op
 
     def g_sort_inplace(self):
